@@ -88,9 +88,11 @@ def solve(formula, display=True, log=False, params={}):
         y = None
 
     try:
+        if grb.Status != gp.GRB.OPTIMAL:
+            raise AttributeError('No optimal solution.')
         solution = Solution('Gurobi', grb.ObjVal, np.array(grb.getAttr('X')),
                             grb.Status, grb.Runtime, y=y)
-    except AttributeError:
+    except (AttributeError, GurobiError):
         warnings.warn('Fail to find the optimal solution.')
         # solution = None
         solution = Solution('Gurobi', np.nan, None, grb.Status, grb.Runtime)
